@@ -218,7 +218,7 @@ func NewGate(write bool) (*Gate, error) {
 func (g *Gate) Close() { g.pool.Close() }
 
 // Do serves one request (requests of one Gate are served one after the other).
-func (g *Gate) Do(method, target, body string) (ob Obs, err error) {
+func (g *Gate) Do(method, target, body string, h Hdr) (ob Obs, err error) {
 	var req *http.Request
 	func() {
 		defer func() {
@@ -226,12 +226,20 @@ func (g *Gate) Do(method, target, body string) (ob Obs, err error) {
 				err = fmt.Errorf("httptest.NewRequest(%q, %q): %v", method, target, r)
 			}
 		}()
-		req = httptest.NewRequest(method, target, strings.NewReader(body))
+		if h.Body {
+			req = httptest.NewRequest(method, target, strings.NewReader(body))
+		} else {
+			req = httptest.NewRequest(method, target, nil)
+		}
 	}()
 	if err != nil {
 		return ob, err
 	}
-	req.Header.Set("Content-Type", "application/json")
+	for name, v := range map[string]string{"Accept": h.Accept, "Content-Type": h.Ctype, "X-HTTP-Method-Override": h.Override} {
+		if v != "-" && v != "" {
+			req.Header.Set(name, v)
+		}
+	}
 	ro := &reqObs{}
 	req = req.WithContext(context.WithValue(req.Context(), obsKey{}, ro))
 	rec := httptest.NewRecorder()
